@@ -43,6 +43,15 @@ func checkLCS(a, b []byte, bound int, buffer *[]uint64) (cause string, detail ma
 	return "", detail
 }
 
+func hasUpper(b []byte) bool {
+	for _, x := range b {
+		if x >= 'A' && x <= 'Z' {
+			return true
+		}
+	}
+	return false
+}
+
 func lcsCase(c *core.Ctx, a, b []byte, bounds []int, shared *[]uint64) {
 	for _, bound := range bounds {
 		cause, detail := checkLCS(a, b, bound, shared)
@@ -55,6 +64,15 @@ func lcsCase(c *core.Ctx, a, b []byte, bounds []int, shared *[]uint64) {
 		s2, l2 := obialign.FastLCSScore(bs(a), bs(b), bound, nil)
 		if s1 != s2 || l1 != l2 {
 			c.Violate("buffer-reuse", "FastLCSScore gives different answers with a reused and a fresh buffer", detail)
+		}
+		// the same pair given to the kernel as raw bytes in mixed case (sequences assembled with
+		// Write / WriteString keep the case they are given): a letter matches in either case
+		if hasUpper(a) || hasUpper(b) {
+			s4, l4, _ := obialign.FastLCSEGFScoreByte(a, b, bound, false, shared)
+			if s4 != s1 || l4 != l1 {
+				detail["raw_bytes_answer"] = []int{s4, l4}
+				c.Violate("case", "the kernel gives another answer for the same pair written in mixed case", detail)
+			}
 		}
 		// symmetry
 		s3, l3 := obialign.FastLCSScore(bs(b), bs(a), bound, shared)
@@ -127,6 +145,9 @@ func runRandomLCS(c *core.Ctx) {
 		}
 		if c.Rng.Intn(4) == 0 {
 			a = gen.Upper(c.Rng, a, 300)
+		}
+		if c.Rng.Intn(8) == 0 {
+			b = gen.Upper(c.Rng, b, 1000)
 		}
 		lcs, ali := ref.LCS(a, b, ref.Compatible)
 		d := ali - lcs
